@@ -10,6 +10,8 @@ mod rng;
 mod util;
 #[path = "../../../sim/storesim/src/fsx.rs"]
 mod fsx;
+#[path = "../../../sim/storesim/src/image.rs"]
+mod image;
 
 mod ds;
 mod linz;
@@ -228,6 +230,7 @@ fn dispatch(scenario: &str, seed: u64, worker: usize, slot: &Slot) {
         "kvs-verifier" => store::kvs_with_verifier(seed, worker, slot),
         "kvs-soak" => store::kvs_soak(seed, worker, slot),
         "tree-soak" => store::tree_soak(seed, worker, slot),
+        "kvs-crash" => store::kvs_crash(seed, worker, slot),
         "tree-live" => store::tree_liveness(seed, worker, slot),
         other => panic!("unknown scenario {other}"),
     }
@@ -242,6 +245,7 @@ fn property_of(scenario: &str) -> &'static str {
         "kvs-cursor" => "C07",
         "kvs-verifier" => "C08",
         "kvs-soak" | "tree-soak" => "C01",
+        "kvs-crash" => "C02",
         "kvs-live" | "tree-live" => "C20",
         _ => "?",
     }
